@@ -135,6 +135,14 @@ CHECKS.append({
     "technique": "Coq proof (totality of the modelled components: structural recursion / no-exhaustion theorems) + pinned abort-site inventory + watchdog-supervised search on the implementation",
 })
 
+CHECKS.append({
+    "property_id": "C03",
+    "text": "Coq theorems about a strict checker of the typed IR (the specification of 'well typed'): if the checker passes, the type the IR gives every node is the type derived bottom-up from the leaves and every node of the tree meets its rule; the target of every assignment, compound assignment and increment is an lvalue whose path goes through nothing const and the assigned value has the target's type; every call has one operand per parameter, each of the parameter's type, a writable lvalue for out / inout; returned values have the function's type and initialisers the variable's (for all expression trees and statements). The extracted checker is run on the IR (dumped with the types Expression::get_type answers) of every program the harness type checks: the third-party corpus, the repository sources and generated programs of every declaration kind. Rejection is observed: generated well-typed programs with one injected violation (23 demanded kinds) must be rejected.",
+    "design_ref": "DESIGN.md §4 C03",
+    "note": "Partial: the checker and its theorems specify the target; that the elaborator always meets it is validated program by program (translation validation), not proved. One known finding (default arguments keep their literal type).",
+    "technique": "Coq proof (soundness theorems of a strict IR type checker) + extracted checker run on the type checker's output for corpus and generated programs + injected-violation rejection runs",
+})
+
 _claimed = {c["property_id"] for c in CHECKS}
 NOT_APPLICABLE = [
     {"property_id": p, "reason": "not yet claimed: model/theorems under construction (see DESIGN.md build order); no check registered until it passes on the unchanged tree"}
